@@ -72,6 +72,12 @@ func (h *StreamHandler) ValidateUploadMetadata(meta *TransferMetadata) error {
 		return err
 	}
 
+	// Reject early a destination that a symlink leads outside the allowed paths
+	// (the path is resolved and checked again when the upload is written)
+	if _, err := h.ResolvePath(meta.Path); err != nil {
+		return err
+	}
+
 	// Check size limit (if not directory and size is known)
 	if !meta.IsDirectory && meta.Size > 0 && h.cfg.MaxFileSize > 0 && meta.Size > h.cfg.MaxFileSize {
 		return fmt.Errorf("file too large: %d bytes (max %d)", meta.Size, h.cfg.MaxFileSize)
@@ -86,13 +92,14 @@ func (h *StreamHandler) ValidateDownloadMetadata(meta *TransferMetadata) error {
 		return err
 	}
 
-	// Check for symlinks and validate their targets
-	if err := h.validateSymlinkTarget(meta.Path); err != nil {
+	// Resolve symlinks anywhere in the path and validate the real location
+	realPath, err := h.ResolvePath(meta.Path)
+	if err != nil {
 		return err
 	}
 
-	// Check if path exists (follows symlinks)
-	info, err := os.Stat(meta.Path)
+	// Check if path exists
+	info, err := os.Stat(realPath)
 	if err != nil {
 		return fmt.Errorf("path not found: %w", err)
 	}
@@ -105,33 +112,99 @@ func (h *StreamHandler) ValidateDownloadMetadata(meta *TransferMetadata) error {
 	return nil
 }
 
-// validateSymlinkTarget checks if a path is a symlink and validates that its target
-// is within the allowed paths. This prevents symlink-based escape attacks.
-func (h *StreamHandler) validateSymlinkTarget(path string) error {
-	// Use Lstat to check if the path itself is a symlink (doesn't follow symlinks)
-	info, err := os.Lstat(path)
+// ResolvePath validates a requested path and returns the real path that file operations
+// must use. The request is checked lexically first; then every symbolic link in it (in any
+// parent directory as well as the last component) is resolved and the real path is checked
+// against the allowed paths again, so a link inside an allowed directory cannot lead a
+// transfer outside of it.
+func (h *StreamHandler) ResolvePath(path string) (string, error) {
+	return h.resolveAllowedPath(path, true)
+}
+
+// resolveAllowedPath implements ResolvePath. With followFinal false only the directory part
+// is resolved and the last component is kept as named, for operations that act on a link
+// itself rather than on its target (stat, delete).
+func (h *StreamHandler) resolveAllowedPath(path string, followFinal bool) (string, error) {
+	if err := h.validatePath(path); err != nil {
+		return "", err
+	}
+
+	var realPath string
+	var err error
+	if followFinal {
+		realPath, err = resolvePath(normalizePath(path))
+	} else {
+		realPath, err = resolveParent(normalizePath(path))
+	}
 	if err != nil {
-		// Path doesn't exist or can't be accessed - let later checks handle this
-		return nil
+		return "", fmt.Errorf("cannot resolve path: %w", err)
 	}
 
-	// If not a symlink, nothing to validate
-	if info.Mode()&os.ModeSymlink == 0 {
-		return nil
+	// Validate the resolved path: this is the location that will be touched
+	if err := h.validatePath(realPath); err != nil {
+		return "", fmt.Errorf("symlink target not allowed: %w", err)
 	}
 
-	// Resolve the symlink target
-	target, err := filepath.EvalSymlinks(path)
+	return realPath, nil
+}
+
+// resolvePath returns the real location of path with every symbolic link resolved.
+// The longest existing part of the path is resolved by the operating system's rules
+// (including ".." that follows a link); the remainder does not exist yet, cannot contain
+// links and is appended as named. A link whose target is missing is followed to where it
+// points, because creating a file "through" it would land there.
+func resolvePath(path string) (string, error) {
+	rest := ""
+	cur := path
+	for hops := 0; ; {
+		realPath, err := filepath.EvalSymlinks(cur)
+		if err == nil {
+			return filepath.Join(realPath, rest), nil
+		}
+		if !os.IsNotExist(err) {
+			return "", err
+		}
+
+		// A link with a missing target: continue where it points
+		if target, lerr := os.Readlink(cur); lerr == nil {
+			if hops++; hops > 32 {
+				return "", fmt.Errorf("too many levels of symbolic links: %s", path)
+			}
+			if !filepath.IsAbs(target) {
+				dir, _ := filepath.Split(cur)
+				target = dir + target
+			}
+			cur = target
+			continue
+		}
+
+		// cur does not exist: strip its last component and retry with the parent.
+		// Split does not clean, so ".." is never cancelled against a link lexically.
+		dir, file := filepath.Split(cur)
+		if dir == "" || file == "" {
+			if trimmed := strings.TrimRight(cur, string(filepath.Separator)); trimmed != "" && trimmed != cur {
+				cur = trimmed
+				continue
+			}
+			return "", err
+		}
+		if len(dir) > len(filepath.VolumeName(dir))+1 {
+			dir = dir[:len(dir)-1]
+		}
+		rest = filepath.Join(file, rest)
+		cur = dir
+	}
+}
+
+// resolveParent is resolvePath for operations that act on the last component itself
+// (lstat, remove, creating a link): every link in the directory part is resolved and the
+// final name is kept. path must be clean.
+func resolveParent(path string) (string, error) {
+	dir, err := resolvePath(filepath.Dir(path))
 	if err != nil {
-		return fmt.Errorf("cannot resolve symlink: %w", err)
+		return "", err
 	}
-
-	// Validate the resolved target path
-	if err := h.validatePath(target); err != nil {
-		return fmt.Errorf("symlink target not allowed: %w", err)
-	}
-
-	return nil
+	return filepath.Join(dir, filepath.Base(path)), nil
 }
 
 // authenticate checks if the password is correct.
@@ -235,9 +308,27 @@ func (h *StreamHandler) validatePath(path string) error {
 		if isPathAllowed(normalizedPath, pattern) {
 			return nil
 		}
+		// Real paths are also matched against the pattern with its own directory
+		// resolved: an allowed root may itself be reached through a link (/tmp on macOS)
+		if isPathAllowed(normalizedPath, realPattern(pattern)) {
+			return nil
+		}
 	}
 
 	return fmt.Errorf("path not in allowed list: %s", path)
+}
+
+// realPattern returns an allowed-path pattern with its literal directory prefix replaced
+// by that directory's real path. The pattern is returned unchanged when the prefix does
+// not exist or contains no link.
+func realPattern(pattern string) string {
+	clean := normalizePath(pattern)
+	base := patternBaseDir(pattern)
+	realBase, err := filepath.EvalSymlinks(base)
+	if err != nil || realBase == base || !strings.HasPrefix(clean, base) {
+		return clean
+	}
+	return realBase + strings.TrimPrefix(clean, base)
 }
 
 // isPathAllowed checks if a path matches an allowed pattern.
